@@ -1179,7 +1179,7 @@ func ttlBoundaryProbe(m *meta, rng *rand.Rand, round int) {
 	const ttl = 20 * time.Microsecond
 	neg, over := 0, 0
 	var worst time.Duration
-	for i := 0; i < 1500; i++ {
+	for i, t0 := 0, time.Now(); i < 1500 && time.Since(t0) < 3*time.Second; i++ {
 		c.Set(1, i, ttl)
 		for j := 0; j < 100000; j++ {
 			_, rem, ok := c.GetWithTTL(1)
@@ -1198,7 +1198,7 @@ func ttlBoundaryProbe(m *meta, rng *rand.Rand, round int) {
 		}
 	}
 	if neg > 0 || over > 0 {
-		m.violate("C05", fmt.Sprintf("%s: Set(1, i, 20us) polled with GetWithTTL until the miss, 1500 times: %d hits reported a negative remaining time (worst %v) and %d more than the TTL given; a hit's remaining time lies in [0, ttl] and -1 means 'never expires'", ctx, neg, worst, over), ctx)
+		m.violate("C05", fmt.Sprintf("%s: Set(1, i, 20us) polled with GetWithTTL until the miss, up to 1500 times: %d hits reported a negative remaining time (worst %v) and %d more than the TTL given; a hit's remaining time lies in [0, ttl] and -1 means 'never expires'", ctx, neg, worst, over), ctx)
 	}
 	m.count("ttl_boundary_probes")
 }
@@ -1236,7 +1236,7 @@ func pairingRace(m *meta, rng *rand.Rand, round int) {
 			}
 		}()
 	}
-	for i := 0; i < 30000 && bad.Load() == 0; i++ {
+	for i, t0 := 0, time.Now(); i < 30000 && bad.Load() == 0 && time.Since(t0) < 2*time.Second; i++ {
 		c.Set(1, 2*i, time.Nanosecond)
 		c.Set(1, 2*i+1, time.Hour)
 	}
